@@ -226,55 +226,81 @@ def default_byte(key, addr):
     return ((h >> 13) ^ (h >> 3)) & 0xff
 
 
+PAGE = 1024
+
+
 class Memory(object):
-    """Sparse byte-addressed memory: {key: {addr: byte}} holding only bytes that differ from
-    default_byte; key = (x, y) for chip-wide addresses, (x, y, p) for core-local ones."""
+    """Byte-addressed memory in pages created on first touch: {(key, page number): bytearray(PAGE)},
+    a fresh page holding default_byte of its place; key = (x, y) for chip-wide addresses, (x, y, p)
+    for core-local ones.  Two memories are equal iff `same(other)`."""
 
     def __init__(self):
-        self.mem = {}
+        self.pages = {}
 
     @staticmethod
     def key(x, y, p, addr):
         return (x, y) if addr >= CORE_LOCAL_LIMIT else (x, y, p)
 
+    def page(self, x, y, p, addr):
+        k = (self.key(x, y, p, addr), addr // PAGE)
+        pg = self.pages.get(k)
+        if pg is None:
+            base = (addr // PAGE) * PAGE
+            pg = self.pages[k] = bytearray(default_byte(k[0], base + i) for i in range(PAGE))
+        return pg
+
     def peek(self, x, y, p, addr, n):
-        out = bytearray(n)
-        for i in range(n):
-            a = (addr + i) & 0xffffffff
-            k = self.key(x, y, p, a)
-            m = self.mem.get(k)
-            v = m.get(a) if m else None
-            out[i] = default_byte(k, a) if v is None else v
+        out = bytearray()
+        while n > 0:
+            addr &= 0xffffffff
+            off = addr % PAGE
+            m = min(n, PAGE - off)
+            out += self.page(x, y, p, addr)[off:off + m]
+            addr += m
+            n -= m
         return bytes(out)
 
     def poke(self, x, y, p, addr, data):
-        for i, b in enumerate(bytearray(data)):
-            a = (addr + i) & 0xffffffff
-            k = self.key(x, y, p, a)
-            if b == default_byte(k, a):
-                m = self.mem.get(k)
-                if m is not None:
-                    m.pop(a, None)
-                    if not m:
-                        del self.mem[k]
-            else:
-                self.mem.setdefault(k, {})[a] = b
+        data = bytes(data)
+        pos = 0
+        while pos < len(data):
+            addr &= 0xffffffff
+            off = addr % PAGE
+            m = min(len(data) - pos, PAGE - off)
+            self.page(x, y, p, addr)[off:off + m] = data[pos:pos + m]
+            addr += m
+            pos += m
 
     def copy(self):
         c = Memory()
-        c.mem = {k: dict(m) for k, m in self.mem.items()}
+        c.pages = {k: bytearray(v) for k, v in self.pages.items()}
         return c
+
+    def same(self, other):
+        if self.pages == other.pages:
+            return True
+        if self.diff(other):
+            return False
+        for k in set(self.pages) ^ set(other.pages):      # equal content, a page touched on one side only: materialise it
+            self.pages.setdefault(k, self._get(k))
+            other.pages.setdefault(k, other._get(k))
+        return True
+
+    def _get(self, k):
+        pg = self.pages.get(k)
+        if pg is None:
+            pg = bytearray(default_byte(k[0], k[1] * PAGE + i) for i in range(PAGE))
+        return pg
 
     def diff(self, other):
         """[(key, addr, mine, theirs)] of up to 4 differing bytes"""
         out = []
-        for k in sorted(set(self.mem) | set(other.mem)):
-            a_, b_ = self.mem.get(k, {}), other.mem.get(k, {})
+        for k in sorted(set(self.pages) | set(other.pages)):
+            a_, b_ = self._get(k), other._get(k)
             if a_ != b_:
-                for a in sorted(set(a_) | set(b_)):
-                    va, vb = a_.get(a, default_byte(k, a)), b_.get(a, default_byte(k, a))
-                    if va != vb:
-                        out.append((list(k), a, va, vb))
+                for i in range(PAGE):
+                    if a_[i] != b_[i]:
+                        out.append((list(k[0]), k[1] * PAGE + i, a_[i], b_[i]))
                         if len(out) >= 4:
                             return out
         return out
